@@ -27,7 +27,7 @@
                 ensures final(self).outcome() == (if old(self).outcome() is None { Some(Ok::<T, RequestError>(value)) } else { old(self).outcome() }),
             { unimplemented!() }
         }
-//@trusted client::message::Promise<T>::{success,failure}: complete the callback / oneshot at most once (first completion wins) - Kani harness k_promise_generic
+//@trusted client::message::Promise<T>::{success,failure}: complete the callback / oneshot at most once (first completion wins) - not cross-checked: Kani cannot handle Box<dyn FnOnce> + oneshot within 20 min
 
 //@item rodbus/src/client/message.rs | Setting
 //@item rodbus/src/client/message.rs | Command
